@@ -460,7 +460,7 @@ Section Exec.
           end
         else if c =? c_FastGetInt then
           match znth slots (iA i) with
-          | Some r => match obj_get s r (fn_Int (iB i)) pos with
+          | Some r => match obj_get s r (fn_newUntypedInt (iB i)) pos with
                       | inl rv => slift rv s (fun v => SNext slots (v :: ops) s)
                       | inr w => SUnmod w
                       end
@@ -468,7 +468,7 @@ Section Exec.
           end
         else if c =? c_FastSetInt then
           match ops, znth slots (iA i) with
-          | v :: rest, Some r => match obj_set s r (fn_Int (iB i)) v with
+          | v :: rest, Some r => match obj_set s r (fn_newUntypedInt (iB i)) v with
                                  | inl (Ok s') => SNext slots rest s'
                                  | inl _ => SFail "runtime error" s
                                  | inr w => SUnmod w
